@@ -355,6 +355,7 @@ def main():
     S.tuple_pieces_stream(run)
     S.option_probes(run, kinds)
     S.options_stream(run, drv)
+    S.pytree_stream(run, drv)
     debug_dump(run)
     run.finish("proof")
 
